@@ -558,9 +558,9 @@ package ion
 
 //@ func (*binaryReader).readBVM
 //@ split returns
-//@ requires brInv(r) && bsOn(&r.bits, bitcodeBVM)
+//@ requires brLocal(r) && bsOn(&r.bits, bitcodeBVM)
 //@ modifies r.lst, r.bits.pos, r.bits.state, r.bits.code, r.bits.null, r.bits.len, vcStreamOf(r.bits.in).cur
-//@ ensures[C03,C06,C10] err == nil ==> brInv(r) && r.bits.state == bssBeforeValue
+//@ ensures[C03,C06,C10] err == nil ==> brLocal(r) && r.bits.state == bssBeforeValue
 //@ ensures[C03,C10] err == nil ==> r.lst == V1SystemSymbolTable
 //@ ensures[C07,C10] old(bsAvail(&r.bits)) < 3 || old(bsByte(&r.bits, 2)) != 0xEA || old(bsByte(&r.bits, 0)) != 1 || old(bsByte(&r.bits, 1)) != 0 ==> err != nil
 //@ ensures[C03,C10] old(bsAvail(&r.bits)) >= 3 && old(bsByte(&r.bits, 2)) == 0xEA && old(bsByte(&r.bits, 0)) == 1 && old(bsByte(&r.bits, 1)) == 0 ==> err == nil
@@ -592,9 +592,9 @@ package ion
 
 //@ func (*binaryReader).readFieldName
 //@ split returns
-//@ requires brInv(r) && r.lst != nil && r.bits.state == bssOnFieldID && r.bits.code == bitcodeFieldID
+//@ requires brLocal(r) && r.lst != nil && r.bits.state == bssOnFieldID && r.bits.code == bitcodeFieldID
 //@ modifies r.fieldName, r.bits.pos, r.bits.state, r.bits.code, r.bits.null, r.bits.len, vcStreamOf(r.bits.in).cur
-//@ ensures[C03,C06,C10] err == nil ==> brInv(r) && r.bits.state == bssBeforeValue && r.fieldName != nil
+//@ ensures[C03,C06,C10] err == nil ==> brLocal(r) && r.bits.state == bssBeforeValue && r.fieldName != nil
 //@ ensures[C03,C10] err == nil ==> uint64(r.fieldName.LocalSID) == specVarUintValue(bsS(&r.bits).data, old(bsS(&r.bits).cur), specVarUintEnd(old(bsS(&r.bits))))
 //@ ensures[C07] specVarUintEnd(old(bsS(&r.bits))) == 0 || specVarUintEnd(old(bsS(&r.bits))) > old(bsRem(&r.bits)) ==> err != nil
 //@ safe[C06]
@@ -604,9 +604,11 @@ package ion
 
 //@ func (*binaryReader).next
 //@ split returns
-//@ requires brInv(r) && r.err == nil
+//@ requires brLocal(r) && r.err == nil
+//@ requires bsNested(&r.bits)
 //@ modifies r.eof, r.lst, r.fieldName, r.annotations, r.valueType, r.value, r.ctx.arr, r.bits.pos, r.bits.state, r.bits.code, r.bits.null, r.bits.len, r.bits.stack.arr, vcStreamOf(r.bits.in).cur
-//@ ensures[C03,C06,C08] err == nil ==> brInv(r)
+//@ ensures[C03,C06,C08] err == nil ==> brLocal(r)
+//@ ensures[C03,C06,C08] err == nil ==> bsNested(&r.bits)
 //@ ensures[C03,C08] old(r.bits.state) == bssBeforeValue && (old(bsTop(&r.bits)) || old(r.bits.pos) != old(bsTopEnd(&r.bits))) && old(bsAvail(&r.bits)) > 0 && err == nil &&
 //@    specIonType(old(bsByte(&r.bits, 0))) != NoType ==> result && !r.eof && r.valueType == specIonType(old(bsByte(&r.bits, 0))) && ((r.value == nil) == specTagNull(old(bsByte(&r.bits, 0))))
 //@ ensures[C03,C10] old(r.bits.state) == bssBeforeValue && (old(bsTop(&r.bits)) || old(r.bits.pos) != old(bsTopEnd(&r.bits))) && old(bsAvail(&r.bits)) > 0 && err == nil &&
